@@ -37,6 +37,24 @@ CLASSES = ["rsv2", "rsv3", "rsv1_nocompress", "rsv1_cont", "rsv1_ctrl", "bad_opc
 ]
 
 
+class StubLoop:
+    """call_soon() only: callbacks run when the driver lets "one loop iteration" pass."""
+
+    def __init__(self) -> None:
+        self.ready: list = []
+
+    def call_soon(self, cb, *args):
+        self.ready.append((cb, args))
+
+    def create_future(self):  # a consumer never waits here (read() is only called when it will not block)
+        raise AssertionError("reader harness: read() would block")
+
+    def run_ready(self) -> None:
+        ready, self.ready = self.ready, []
+        for cb, args in ready:
+            cb(*args)
+
+
 class StubProto:
     def __init__(self) -> None:
         self._reading_paused = False
@@ -57,7 +75,8 @@ def run_reader(stream: bytes, cfg: dict, cuts: tuple, check_mem: bool = True):
     from aiohttp._websocket.reader_py import WebSocketDataQueue, WebSocketReader
 
     proto = StubProto()
-    q = WebSocketDataQueue(proto, 2 ** 40, loop=None)  # type: ignore[arg-type]
+    sloop = StubLoop()
+    q = WebSocketDataQueue(proto, 2 ** 40, loop=sloop)  # type: ignore[arg-type]
     r = WebSocketReader(q, cfg["max_msg_size"], compress=cfg["compress"], decode_text=cfg["decode_text"])
     prev = 0
     mx = cfg["max_msg_size"]
@@ -68,6 +87,14 @@ def run_reader(stream: bytes, cfg: dict, cuts: tuple, check_mem: bool = True):
         err, _ = r.feed_data(seg)
         if err:
             break
+        if proto._reading_paused:
+            # a transport that honours pause_reading() delivers nothing more until it is resumed: with no complete message
+            # queued (nothing for a consumer to take, which is what resumes a full queue) somebody has to do that by itself
+            for _ in range(3):
+                sloop.run_ready()
+            if proto._reading_paused and not q._buffer and c < len(stream):
+                raise Violation("reader-stalls", f"reading was paused after {c} of {len(stream)} bytes ({len(cuts) + 1} segments) with nothing queued for the "
+                                f"consumer and nothing scheduled to resume it: the rest of the frame can never arrive")
         if check_mem and mx:
             held = 0
             for name in ("_partial", "_tail"):
@@ -453,6 +480,46 @@ def unit_mut(rec: Rec, n: int, offset: int) -> None:
     hyp.run(rec, mutated(), body, n, seed_offset=offset)
 
 
+def trickle_cases() -> list[dict]:
+    """One or two valid frames larger than the reader's fragment cap (1024 pieces), delivered a byte or two at a time."""
+    import zlib
+
+    out = []
+    for size in (1100, 1500, 3000):
+        for masked in (False, True):
+            for compress in (False, True):
+                for mx in (0, 4096, 65536):
+                    payload = bytes((i * 13 + 7) & 0x7F | 0x20 for i in range(size))
+                    if compress:
+                        co = zlib.compressobj(wbits=-15, level=0)  # stored blocks: the frame stays large on the wire
+                        wire = co.compress(payload) + co.flush(zlib.Z_SYNC_FLUSH)
+                        wire = wire[:-4]
+                    else:
+                        wire = payload
+                    mask = b"\x01\x02\x03\x04" if masked else None
+                    stream = refws.encode_frame(0x2, wire, fin=True, rsv1=compress, mask=mask) + refws.encode_frame(0x1, b"tail", fin=True, mask=mask)
+                    for step in (1, 2):
+                        out.append({"stream": stream, "cfg": {"compress": compress, "decode_text": False, "max_msg_size": mx}, "step": step,
+                                    "cls": f"trickle/{size}/{'masked' if masked else 'plain'}/{'deflate' if compress else 'raw'}/max{mx}"})
+    return out
+
+
+def unit_trickle(rec: Rec, shard: int, nshards: int) -> None:
+    rec.exhaustive = True
+    for i, case in enumerate(trickle_cases()):
+        if i % nshards != shard:
+            continue
+        stream = case["stream"]
+        cuts = tuple(range(case["step"], len(stream), case["step"]))
+        try:
+            check_stream(rec, stream, case["cfg"], [cuts], {"cls": case["cls"]}, {0})
+        except Violation as v:
+            if v.key in rec.muted:
+                continue
+            rec.fail(v.key, v.msg, {"stream": stream, "cfg": case["cfg"], "sel": {"exhaustive": False, "random": [list(cuts)]}, "cls": case["cls"]})
+            rec.muted.add(v.key)
+
+
 def units(tier: str, seed: int) -> list[Unit]:
     n = 60 if tier == "quick" else 1500
     us = []
@@ -465,6 +532,8 @@ def units(tier: str, seed: int) -> list[Unit]:
     per = 12 if tier == "quick" else 300
     for i in range(0, len(CLASSES), 2):
         us.append(Unit(f"classes{i}", unit_classes, {"n": per, "offset": 200 + i * 3, "classes": CLASSES[i:i + 2]}))
+    for sh in range(4):
+        us.append(Unit(f"trickle{sh}", unit_trickle, {"shard": sh, "nshards": 4}))
     return us
 
 
